@@ -473,6 +473,7 @@ def schedule_run(
     setup: Callable[[World], None] | None = None,
     window_at: Any = None,
     lock_seconds: float = 60.0,
+    window_after_inject: bool = False,
 ) -> bool:
     """One worker; at choice point i the message delivered next is the choices[i]-th of the
     currently deliverable ones (at most ``fanout`` candidates), left un-acked if noack[i]; an
@@ -518,7 +519,9 @@ def schedule_run(
                             # the window of symbolic choices starts at the choice point the solver picks
                             if hx.decide_eq(window_at, cp_seen):
                                 w0 = cp_seen
-                        if (window_at is None or w0 is not None) and cp < len(choices):
+                        if window_after_inject and not injected:
+                            pass  # natural order until the injection happened, then the symbolic choices start
+                        elif (window_at is None or w0 is not None) and cp < len(choices):
                             idx = hx.pick(choices[cp], min(len(vis), fanout))
                             cp += 1
                         cp_seen += 1
